@@ -244,6 +244,7 @@ class Engine:
         self._class_sizes = None
         self._virt = None
         self.current_top = None
+        self.atoms = {}      # sexpr of a multi-byte read of initial memory -> (atomic variable, defining term)
 
     # ---- helpers -------------------------------------------------------------
     def fresh(self, name, bits, st=None):
@@ -458,6 +459,13 @@ class Engine:
             bs = [z3.Select(mem, simp(addr + BV(k, self.pbits))) for k in range(n)]
             v = bs[0] if n == 1 else z3.Concat(*reversed(bs))
             v = simp(v)
+            if n > 1 and z3.is_app(v) and v.decl().kind() == z3.Z3_OP_CONCAT and all(
+                    c.decl().kind() == z3.Z3_OP_SELECT and z3.is_const(c.arg(0)) for c in v.children()):
+                # a multi-byte read of untouched caller memory: name it, so that later rewriting cannot split it
+                key = v.sexpr()
+                if key not in self.atoms:
+                    self.atoms[key] = (z3.BitVec('ld!%d' % len(self.atoms), 8 * n), v)
+                v = self.atoms[key][0]
             if want_ptr:
                 return self.bv_to_ptr(st, v) if st is not None else Ptr(None, v)
             return v
@@ -761,6 +769,7 @@ class Engine:
             self.obligations.append(o)
             return o
         o = Obligation(name, kind, fn, line, list(st.pc), goal, info)
+        o.atoms = self.atoms
         o.top = self.current_top
         inl = [f.fn.demangled for f in st.frames]
         o.info['stack'] = [short_fn(x) for x in inl]
